@@ -253,10 +253,17 @@ def parseUna (k : Kcp) (una : U32) : Kcp × Nat :=
   let c := unaCount una k.snd_buf
   ({ k with snd_buf := k.snd_buf.drop c }, c)
 
+/-- leading segments of snd_buf already acknowledged one by one (`acked = 1`) are removed -/
+def dropAcked : List Seg → List Seg
+  | [] => []
+  | s :: rest => if s.acked then dropAcked rest else s :: rest
+
+/-- `shrink_buf`: discard the individually acknowledged head segments, then `snd_una` is the head's
+`sn` (or `snd_nxt` when the buffer is empty) -/
 def shrinkBuf (k : Kcp) : Kcp :=
-  match k.snd_buf with
-  | s :: _ => { k with snd_una := s.sn }
-  | [] => { k with snd_una := k.snd_nxt }
+  match dropAcked k.snd_buf with
+  | s :: rest => { k with snd_buf := s :: rest, snd_una := s.sn }
+  | [] => { k with snd_buf := [], snd_una := k.snd_nxt }
 
 def ackLoop (sn : U32) : List Seg → List Seg
   | [] => []
@@ -527,7 +534,7 @@ def inputLoop (regular : Bool) : Nat → Bytes → InLoop → InLoop
     let st1 := { st with k := shrinkBuf pu.1, flushSeg := st.flushSeg || decide (pu.2 > 0) }
     let st2 : InLoop :=
       if cmd.toNat = IKCP_CMD_ACK then
-        let k2 := parseAck st1.k sn
+        let k2 := shrinkBuf (parseAck st1.k sn)
         let pf := parseFastack k2 sn ts
         { st1 with k := pf.1, flushSeg := st1.flushSeg || pf.2, updRtt := true, latest := ts }
       else if cmd.toNat = IKCP_CMD_PUSH then
